@@ -1,15 +1,25 @@
 import Pyrtma.Proofs.Emit
+import Pyrtma.Proofs.Wire
 import Pyrtma.Props.C04tables
 /-!
 # C04 — all language outputs describe the same wire format
 
 * the six native-type tables of the code (regenerated from the working tree into `Gen/TypeTables.lean` on every run)
-  are total and agree on width and class — kernel evaluation over the whole tables, a proof, not a sample;
+  are total and agree on width and class — kernel evaluation over the whole tables (`tables_total`, `no_stray_keys`,
+  `tables_agree`, `tables_agree_all`);
 * every definition the parser stores is laid out by a C compiler / ctypes without hidden padding and with the
-  recorded size (M6's `no_hidden_padding`, lifted through the registry invariant to any nesting depth, any alias
-  chain, field-list reuse, any item order);
-* every back end walks the same field list: same names, same order, same lengths; native element types are printed
-  through tables that agree.
+  recorded size (`registry_layout`: M6's `no_hidden_padding`, lifted through the registry invariant to any nesting
+  depth, any alias chain, field-list reuse, any item order);
+* **`same_ids_and_constants`** (every registry) and **`same_structs_and_messages`** (every closure that parses, names
+  distinct): the Python, C, JavaScript and MATLAB programs of the model have the same wire signature — constants,
+  string constants, host / module / message ids, message hashes; per struct and message the field names in order, the
+  element counts, and element types that are the same reference or compatible native types *after resolving every alias
+  reference through the alias lines of the same output* (Python resolves in place, the others print one line per
+  alias; C leaves what comes from `core_defs/` to `RTMA.h`).  Proofs: `Proofs/Wire.lean` on top of the scoping
+  invariant of `Proofs/Scoped.lean`;
+* `emit_same_fields_partial`, `native_types_compatible`: the registry-independent layer (kept).
+Decided on the implementation every run: the same `wireClauses` on the four *real* outputs, gcc `offsetof/sizeof`
+against ctypes against the recorded sizes, and that the real outputs are the model's statements (CORR emit.*).
 -/
 namespace Pyrtma.C04
 open Pyrtma.Emit Pyrtma.Emit.Inst Pyrtma.Layout
@@ -45,72 +55,7 @@ theorem registry_layout_gen {T : Tables} (hT : TablesWf T) (ap : Bool) (items : 
     (h : elaborate T ap items {} = .ok R) : R.layoutOk :=
   elaborate_layout hT items {} R regWf_empty ⟨by simp, by simp⟩ h
 
-/-! ### the four printers walk the same field list
-
-Full statement (`emit_same_fields`): for every registry `R` and tables `T` that agree, the wire signatures
-`wireOf (emit T R l)` of the four languages satisfy every clause of `wireClauses` (ids, hashes, constants, module and host
-ids, per definition the field names in order with compatible resolved element types and equal lengths).
-Proved below: names, order and lengths for every definition and every back end (`emit_same_fields_partial`), and
-compatibility of the printed native element types (`native_types_compatible`, instantiated at the working tree's
-tables by kernel evaluation).  Missing for the full statement: the resolution of alias references through the
-printed alias lines (`resolveTy`) and the `filterMap` projections of ids / hashes / constants out of the
-concatenated programs; both are checked on the real outputs by the harness (`wireClauses` on the implementation's
-observation). -/
-
-theorem cnt_native (l : Option Nat) (hl : l ≠ some 0) :
-    (if l.getD 0 ≤ 1 then (none : Option Nat) else some (l.getD 0)).getD 1 = l.getD 1 := by
-  cases l with
-  | none => simp
-  | some n =>
-    have : n ≠ 0 := by intro h; exact hl (by rw [h])
-    simp only [Option.getD_some]
-    by_cases h1 : n ≤ 1
-    · simp [h1]; omega
-    · simp [h1]
-
-theorem cnt_struct (l : Option Nat) (hl : l ≠ some 0) :
-    (if l.getD 0 = 0 then (none : Option Nat) else some (l.getD 0)).getD 1 = l.getD 1 := by
-  cases l with
-  | none => simp
-  | some n =>
-    have : n ≠ 0 := by intro h; exact hl (by rw [h])
-    simp [this]
-
-theorem pyBase_count (T : Tables) (R : Reg) (ty : Name) (l : Option Nat) (hl : l ≠ some 0) (r : TyS × Option Nat)
-    (hr : pyDescBase T R ty (l.getD 0) = some r) (hb : r.1 ≠ .bad) : r.2.getD 1 = l.getD 1 := by
-  unfold pyDescBase at hr
-  split at hr
-  · split at hr
-    · simp at hr; subst hr; exact cnt_native l hl
-    · simp at hr; subst hr; simp at hb
-  · split at hr
-    · simp at hr; subst hr; exact cnt_struct l hl
-    · split at hr
-      · simp at hr; subst hr; exact cnt_struct l hl
-      · simp at hr
-
-theorem pyDesc_count (T : Tables) (R : Reg) (l : Option Nat) (hl : l ≠ some 0) :
-    ∀ (fuel : Nat) (ty : Name), (pyDescriptor T R (l.getD 0) fuel ty).1 ≠ .bad →
-      (pyDescriptor T R (l.getD 0) fuel ty).2.getD 1 = l.getD 1
-  | 0, ty, hb => by
-    unfold pyDescriptor at hb ⊢
-    cases hr : pyDescBase T R ty (l.getD 0) with
-    | none => simp [hr] at hb
-    | some r => simp [hr] at hb ⊢; exact pyBase_count T R ty l hl r hr hb
-  | n + 1, ty, hb => by
-    unfold pyDescriptor at hb ⊢
-    cases hr : pyDescBase T R ty (l.getD 0) with
-    | some r => simp [hr] at hb ⊢; exact pyBase_count T R ty l hl r hr hb
-    | none =>
-      simp only [hr] at hb ⊢
-      split at hb
-      · exact pyDesc_count T R l hl n _ hb
-      · exact absurd rfl hb
-
-theorem py_count (T : Tables) (R : Reg) (f : FieldR) (hl : f.len ≠ some 0) (h : (pyField T R f).ty ≠ .bad) :
-    (pyField T R f).len.getD 1 = f.len.getD 1 := by
-  unfold pyField at h ⊢
-  exact pyDesc_count T R f.len hl 2 f.ty h
+/-! ### the four printers walk the same field list (first, registry-independent layer; the full statements follow below) -/
 
 /-- **`emit_same_fields_partial`.**  For every registry, tables and definition: the C, JavaScript and MATLAB
 statements list exactly the definition's field names in order with exactly its lengths; the Python statement lists
@@ -159,7 +104,97 @@ theorem native_types_compatible {T : Tables} (hT : tablesCompat T = true) (R : R
     · exact this.1.1.1.2
   · simp at this
 
+/-! ### the four outputs denote the same table — every kind, every registry (`Proofs/Wire.lean`)
+
+`wireOf nat prog` is the wire signature of a program: its constants, string constants, host / module / message ids,
+message hashes and, per struct and message, the field names in order with the element type *resolved through the alias
+lines of the same program* and the element count.  `natFmt` gives a JavaScript `type_map.<name>` the meaning
+`supported_types` gives that name (JavaScript has no types of its own). -/
+
+/-- what `supported_types` says each native type name is (size and struct format letter), as the `nat` of `wireOf` -/
+def natFmt : List (Name × Den) := keys.filterMap (fun k => (fmtDen k).map (fun d => (idOf k, d)))
+
+theorem tables_agree_all : TablesAgree tables (assoc natFmt) := tablesAgree_of (by decide +kernel)
+
+theorem tables_cover : TablesTotal tables := tablesTotal_of (by decide +kernel)
+
+/-- **`same_ids_and_constants`.**  For *every* registry: the Python, JavaScript and MATLAB outputs list exactly the
+registry's constants, string constants, host ids, module ids, message ids and message hashes (in registry order), the C
+header the part of each that does not come from `core_defs/`. -/
+theorem same_ids_and_constants (nat : Name → Option Den) (R : Reg) :
+    let py := wireOf nat (emit tables R .py); let c := wireOf nat (emit tables R .c)
+    let js := wireOf nat (emit tables R .js); let m := wireOf nat (emit tables R .m)
+    (py.consts = js.consts ∧ py.consts = m.consts ∧ py.strs = js.strs ∧ py.strs = m.strs ∧
+     py.hosts = js.hosts ∧ py.hosts = m.hosts ∧ py.mods = js.mods ∧ py.mods = m.mods ∧
+     py.mts = js.mts ∧ py.mts = m.mts ∧ py.hashes = js.hashes ∧ py.hashes = m.hashes) ∧
+    (py.mts = R.msgIds.map (fun c => (c.1, c.2.1)) ∧ py.hashes = R.msgs.map (fun d => (d.name, d.hash))) ∧
+    (c.consts = (noCore R.consts (·.2.2)).map (fun c => (c.1, c.2.1)) ∧ c.strs = (noCore R.strs (·.2.2)).map (fun c => (c.1, c.2.1)) ∧
+     c.hosts = (noCore R.hosts (·.2.2)).map (fun c => (c.1, c.2.1)) ∧ c.mods = (noCore R.mods (·.2.2)).map (fun c => (c.1, c.2.1)) ∧
+     c.mts = (noCore R.msgIds (·.2.2)).map (fun c => (c.1, c.2.1)) ∧
+     c.hashes = (noCore R.msgs (·.core)).map (fun d => (d.name, d.hash))) := by
+  simp only [emit]
+  refine ⟨⟨?_, ?_, ?_, ?_, ?_, ?_, ?_, ?_, ?_, ?_, ?_, ?_⟩, ⟨py_mts _ _ _, py_hashes _ _ _⟩,
+    ⟨c_consts _ _ _, c_strs _ _ _, c_hosts _ _ _, c_mods _ _ _, c_mts _ _ _, c_hashes _ _ _⟩⟩
+  · rw [py_consts, js_consts]
+  · rw [py_consts, m_consts]
+  · rw [py_strs, js_strs]
+  · rw [py_strs, m_strs]
+  · rw [py_hosts, js_hosts]
+  · rw [py_hosts, m_hosts]
+  · rw [py_mods, js_mods]
+  · rw [py_mods, m_mods]
+  · rw [py_mts, js_mts]
+  · rw [py_mts, m_mts]
+  · rw [py_hashes, js_hashes]
+  · rw [py_hashes, m_hashes]
+
+/-- **`same_structs_and_messages`.**  For every closure that parses (alias / struct / message names distinct): Python,
+JavaScript and MATLAB list the same structs and messages in the same order, each with the same field names in order,
+the same element counts, and element types that — once every alias reference is resolved through the alias lines of the
+same output — are the same struct / message reference or native types of the same width and class; the C header does so
+for the definitions it prints (a reference to an alias of `core_defs/` stays a reference: `k.aliases`). -/
+theorem same_structs_and_messages {ap : Bool} {items : List (Bool × Item)} {R : Reg}
+    (h : elaborate tables ap items {} = .ok R) (hnd : (defNames items).Nodup) (k : Core)
+    (hk : ∀ a ∈ R.aliases, a.core = true → k.aliases.contains a.name = true) :
+    let nat := assoc natFmt
+    listCompat WDef.compat (wireOf nat (emit tables R .py)).defs (wireOf nat (emit tables R .js)).defs = true ∧
+    listCompat WDef.compat (wireOf nat (emit tables R .py)).defs (wireOf nat (emit tables R .m)).defs = true ∧
+    listCompat (WDef.compatC k) (regDefs nat (emit tables R .py) (pyField tables R) (userReg R))
+      (wireOf nat (emit tables R .c)).defs = true := by
+  have hR := elaborate_regOK tables_cover.char items (regOK_empty tables) h
+  have hD := elaborate_disj h hnd
+  have hL := elaborate_lens tables_wf items regWf_empty ⟨by simp, by simp⟩ h
+  have hnd' : (aliasNames R).Nodup := by
+    have := elaborate_typeNames items h
+    simp only [typeNames, List.map_nil, List.append_nil, List.nil_append] at this
+    have h2 := this.nodup_iff.mpr hnd
+    exact (List.nodup_append.mp (List.nodup_append.mp h2).1).1
+  exact ⟨fields_py_js hR hD tables_cover tables_agree_all hL, fields_py_m hR hD tables_cover tables_agree_all hL,
+    fields_py_c hR hD tables_cover hnd' tables_agree_all hL hk⟩
+
 /-! ### Non-vacuity -/
+
+/-- non-vacuity of `same_structs_and_messages`: a closure with an alias of a native type, an alias of that alias, a
+core struct with an alias-typed field and a `char` array, a struct nesting it in an array, a message, a signal, a message
+nesting the message — it parses with distinct names, every clause of `wireClauses` holds for its four programs, and
+the signature is not trivial (4 definitions with fields, one of them resolved through two alias lines, padding made explicit) -/
+example : (match elaborate tables true
+      [(true, .alias 510 (idOf "int16")), (true, .alias 511 510),
+       (true, .struct 500 1 (.list [(501, 511, none), (502, idOf "double", some 2), (520, idOf "char", some 4)])),
+       (false, .struct 503 2 (.list [(504, 500, some 3), (505, idOf "char", some 5)])),
+       (false, .message 506 1000 3 (.list [(507, 503, none)])),
+       (false, .signal 508 1001 4),
+       (false, .message 509 1002 5 (.list [(512, 506, some 2), (513, 511, none)]))] {} with
+    | .ok R =>
+      let nat := assoc natFmt
+      let k : Core := { aliases := [510, 511], structs := [500] }
+      (wireClauses k (wireOf nat (emit tables R .py)) (wireOf nat (emit tables R .c)) (wireOf nat (emit tables R .js))
+        (wireOf nat (emit tables R .m))).all (·.2) &&
+      (wireOf nat (emit tables R .py)).defs.length == 4 && (wireOf nat (emit tables R .c)).defs.length == 3 &&
+      ((wireOf nat (emit tables R .m)).defs.map (fun d => d.fields.map (·.ty))).head? ==
+        -- int16 (through two alias lines), 6 bytes of inserted padding, double[2], char[4], 4 bytes of trailing padding
+        some [.den ⟨2, .sint⟩, .den ⟨1, .sint⟩, .den ⟨8, .flt⟩, .den ⟨1, .sint⟩, .den ⟨1, .sint⟩]
+    | .error _ => false) = true := by decide +kernel
 
 /-- `{a: uint8; b: int32}` then a message with an array of it and a `double`: accepted, padded, and laid out as recorded -/
 example : (match elaborate tables true
